@@ -206,7 +206,10 @@ def _super_case(draw, tier):
     shape = draw(st.lists(st.integers(0, 5), min_size=2, max_size=12))
     subsets = draw(st.lists(st.lists(st.booleans(), min_size=k, max_size=k), min_size=1, max_size=3))
     return {"engine": NAME, "kind": "super", "k": k, "shape": shape, "subsets": subsets,
-            "orders": [draw(ORDER) for _ in range(3)]}
+            "orders": [draw(ORDER) for _ in range(3)],
+            # how the caller hands the trees over: a list, or a one-shot lazy iterable (the
+            # signature says Iterable[Tree]) that can be traversed only once
+            "lazy": draw(st.sampled_from([0, 0, 1, 2]))}
 
 
 def strategy(pid, tier):
@@ -497,8 +500,20 @@ def _exec_super(run, case):
     before = [x.write(format=9) for x in inputs]
     o = case["orders"]
     need = [tr for p in parts for tr in all_triples(p)]
+    lazy = case.get("lazy", 0)
+
+    def handed(seq):
+        if lazy == 1:
+            return iter(seq)
+        if lazy == 2:
+            return (t for t in seq)
+        return seq
+
+    if lazy:
+        run.probe("lazy_iterable_argument")
+        run.nontrivial = True
     ORACLE.begin(o[0])
-    sup = trees.supertree(inputs)
+    sup = trees.supertree(handed(inputs))
     _note_order(run)
     run.check(sup is not None, ("C20",), "C20.supertree-exists",
               lambda: f"supertree of compatible trees {[newick(p) for p in parts]} is None")
@@ -508,7 +523,7 @@ def _exec_super(run, case):
               lambda: f"supertree {sup.write(format=9)} of {[newick(p) for p in parts]} under "
                       f"order {o[0]} does not display every input tree")
     ORACLE.begin(o[1])
-    allsup = trees.all_supertrees(inputs)
+    allsup = trees.all_supertrees(handed(inputs))
     _note_order(run)
     expected = [bt for bt in all_binary(union)
                 if all(displays(clades(bt) | {frozenset(union)}, tr) for tr in need)]
@@ -556,12 +571,14 @@ def describe(pid):
                 "tree_from_triples, then all_trees_from_triples / tree_from_triples on a drawn "
                 "subset (drawn presentation order, optional foreign triples) against the "
                 "enumeration of all binary trees; (3) supertree / all_supertrees of 1-3 "
-                "restrictions of a hidden tree under drawn list(set) orders. Non-trivial: an "
+                "restrictions of a hidden tree under drawn list(set) orders, handed over as a list "
+                "or as a one-shot lazy iterable. Non-trivial: an "
                 "order was permuted, a block of 3+ elements was formed, or >= 3 leaves; "
                 "distinct = distinct case digest.",
         "real": common_real,
         "stub": ["iteration / pop order of sets (order oracle)"],
         "assumptions": ["leaf names are distinct", "seeded sampling, not exhaustive enumeration"],
         "probes_expected": ["order_permuted", "binary_enumerated", "foreign_triple",
-                            "inconsistent_triples", "several_trees", "several_input_trees"],
+                            "inconsistent_triples", "several_trees", "several_input_trees",
+                            "lazy_iterable_argument"],
     }
